@@ -21,7 +21,7 @@ from ..seams import quiet
 from .c01 import emittable_kinds, apply_exclusions
 
 PROP = 'C03'
-TIERS = {'quick': 3600, 'thorough': 40000}
+TIERS = {'quick': 3600, 'thorough': 140000}
 RULE = ('each run: a seeded catalogue netlist (3-30 blocks, hierarchy 0-3) with seeded naming faults and a seeded history '
         'of generation calls (whole hierarchy, single module of a child, caller-supplied createdStructures, generation for '
         'another circuit in between, generation on a broken circuit that raises and is then repeated); every returned text '
